@@ -1,109 +1,5 @@
 /-
-C20: the typing side condition of the full statements, for every node kind.
-
-`typedE/typedA/typedS` say that the long-double-ness of every node's type agrees with that of its
-operands the way `add_type` (type.c) and the parser build trees.  The x87 half of C20 ("+1 iff the
-node's type is long double") is meaningless on trees `parse()` cannot produce (a `long double` ADD
-with an `int` operand would pop a register nobody pushed).  The predicates are decidable; the
-check runs them on every tree the real front end dumps (`drv_c20 scope`), so the hypothesis of
-the theorems is validated against the implementation, not assumed.
+C20: the typing side condition of the full statements is defined in Model/C20Scope.lean
+(`typedE/typedA/typedS`); this module only keeps the import path of earlier revisions.
 -/
 import ChibiVerif.Lemmas.C20Induction
-
-namespace ChibiVerif.Lemmas.C20
-open ChibiVerif ChibiVerif.Codegen ChibiVerif.Ast
-
-def isNull : Node → Bool
-  | .null => true
-  | _ => false
-
-mutual
-def typedE (env : Env) : Node → Bool
-  | .nullExpr i => !isLD i.ty
-  | .num _ _ _ _ _ _ => true
-  | .neg i lhs => typedE env lhs && (isLD i.ty == isLD lhs.ty?)
-  | .var _ _ => true
-  | .member _ lhs _ => typedA env lhs
-  | .deref _ lhs => typedE env lhs && !isLD lhs.ty?
-  | .addr i lhs => typedA env lhs && !isLD i.ty
-  | .assign i lhs rhs => typedA env lhs && typedE env rhs && (isLD i.ty == isLD rhs.ty?) && bfOK env lhs
-  | .stmtExpr i body => typedBody env body (isLD i.ty)
-  | .comma i lhs rhs => typedE env lhs && typedE env rhs && (isLD i.ty == isLD rhs.ty?)
-  | .cast _ lhs => typedE env lhs
-  | .memzero i _ => !isLD i.ty
-  | .cond i c t e => typedE env c && typedE env t && typedE env e && (isLD i.ty == isLD t.ty?)
-      && (isLD i.ty == isLD e.ty?)
-  | .not i lhs => typedE env lhs && !isLD i.ty
-  | .bitnot i lhs => typedE env lhs && !isLD lhs.ty? && !isLD i.ty
-  | .logand i lhs rhs => typedE env lhs && typedE env rhs && !isLD i.ty
-  | .logor i lhs rhs => typedE env lhs && typedE env rhs && !isLD i.ty
-  | .funcall _ lhs _ _ args => typedE env lhs && !isLD lhs.ty? && typedArgs env args
-  | .labelVal i _ _ => !isLD i.ty
-  | .cas i addr old new => typedE env addr && typedE env old && typedE env new && !isLD addr.ty?
-      && !isLD old.ty? && !isLD new.ty? && !isLD i.ty
-  | .exch i lhs rhs => typedE env lhs && typedE env rhs && !isLD lhs.ty? && !isLD rhs.ty? && !isLD i.ty
-  | .binop i op lhs rhs => typedE env lhs && typedE env rhs && notNull lhs && binopTyped i op lhs rhs
-  | _ => false
-def typedA (env : Env) : Node → Bool
-  | .var _ _ => true
-  | .deref _ lhs => typedE env lhs && !isLD lhs.ty?
-  | .comma _ lhs rhs => typedE env lhs && typedA env rhs
-  | .member _ lhs _ => typedA env lhs
-  | .vlaPtr _ _ => true
-  | .assign _ lhs rhs => typedA env lhs && typedE env rhs && !isLD rhs.ty? && bfOK env lhs
-  | .cond i c t e => typedE env c && typedE env t && typedE env e && !isLD t.ty? && !isLD e.ty?
-      && !isLD i.ty
-  | .funcall _ lhs _ _ args => typedE env lhs && !isLD lhs.ty? && typedArgs env args
-  | _ => false
-def typedS (env : Env) : Node → Bool
-  | .if_ _ c t e => typedE env c && typedS env t && (isNull e || typedS env e)
-  | .for_ _ init c inc t _ _ => (isNull init || typedS env init) && (isNull c || typedE env c)
-      && (isNull inc || typedE env inc) && typedS env t
-  | .do_ _ t c _ _ => typedS env t && typedE env c
-  | .switch_ _ c t _ _ _ => typedE env c && !isLD c.ty? && typedS env t
-  | .case_ _ _ _ _ lhs => typedS env lhs
-  | .block _ body => typedSs env body
-  | .goto_ _ _ _ => true
-  | .gotoExpr _ lhs => typedE env lhs && !isLD lhs.ty?
-  | .label _ _ _ lhs => typedS env lhs
-  | .ret _ lhs => isNull lhs || typedE env lhs
-  | .exprStmt _ lhs => typedE env lhs
-  | .asm_ _ _ => true
-  | _ => false
-def typedSs (env : Env) : NodeList → Bool
-  | .nil => true
-  | .cons n rest => typedS env n && typedSs env rest
-/-- the body of a statement expression whose value is (`ld = true`) / is not a long double -/
-def typedBody (env : Env) : NodeList → Bool → Bool
-  | .nil, ld => !ld
-  | .cons (.exprStmt _ lhs) .nil, ld => typedE env lhs && (ld == isLD lhs.ty?)
-  | .cons n rest, ld => typedS env n && typedBody env rest ld
-def typedArgs (env : Env) : NodeList → Bool
-  | .nil => true
-  | .cons a rest => typedE env a && typedArgs env rest
-end
-
-/-! counting, for the scope report of the driver -/
-
-instance : Add (Nat × Nat) := ⟨fun a b => (a.1 + b.1, a.2 + b.2)⟩
-
-mutual
-/-- (expression statements in the tree, those in scope of the `_partial` theorems) -/
-def countStmts (env : Env) : Node → Nat × Nat
-  | .if_ _ _ t e => countStmts env t + countStmts env e + (1, 0)
-  | .for_ _ init _ _ t _ _ => countStmts env init + countStmts env t + (1, 0)
-  | .do_ _ t _ _ _ => countStmts env t + (1, 0)
-  | .switch_ _ _ t _ _ _ => countStmts env t + (1, 0)
-  | .case_ _ _ _ _ lhs => countStmts env lhs + (1, 0)
-  | .block _ body => countStmtList env body
-  | .label _ _ _ lhs => countStmts env lhs + (1, 0)
-  | .exprStmt i lhs => (1, if covS env (.exprStmt i lhs) then 1 else 0)
-  | .asm_ _ _ => (1, 1)
-  | .null => (0, 0)
-  | _ => (1, 0)
-def countStmtList (env : Env) : NodeList → Nat × Nat
-  | .nil => (0, 0)
-  | .cons n rest => countStmts env n + countStmtList env rest
-end
-
-end ChibiVerif.Lemmas.C20
